@@ -138,18 +138,60 @@ def r2_writer_table(run, field, allowed, rule='R2', instance=None, kinds=None, i
     else:
         writers = q.writers_of_field(fx, field)
     inst = instance or field.split('::')[-1]
+    # a non-public (or file-local) helper all of whose callers are allowed writers is an allowed writer itself:
+    # extracting lines of an allowed writer into a helper does not widen the writer set
+    helper_of = {}
+
+    def callers_of(name):
+        out = set()
+        for f_ in fx.fn(name, required=False):
+            for cf, _c in fx.callers.get(f_.usr, []):
+                out.add(q.top_function(fx, cf).norm)
+        return out
+
+    def is_helper(name, seen=()):
+        fs = fx.fn(name, required=False)
+        if not fs or name in seen:
+            return False
+        if not all((f_.d.get('access') in ('private', 'protected')) or (f_.kind == 'function' and f_.cls is None and f_.file.endswith('.cpp')) for f_ in fs):
+            return False
+        cs = callers_of(name)
+        if not cs:
+            return False
+        return all(c in allowed or is_helper(c, seen + (name,)) for c in cs)
+    for w in list(writers):
+        if w not in allowed and is_helper(w):
+            roots = set()
+            todo = [w]
+            visited = set()
+            while todo:
+                x = todo.pop()
+                if x in visited:
+                    continue
+                visited.add(x)
+                for c in callers_of(x):
+                    if c in allowed:
+                        roots.add(c)
+                    else:
+                        todo.append(c)
+            helper_of[w] = roots
     for w, accs in sorted(writers.items()):
         for fn in fx.fn(w, required=False):
             run.touch(fn)
         loc = accs[0].fn.loc(accs[0].node) if accs else ''
-        if w in allowed:
+        if w in helper_of:
+            run.ok(rule, inst, '%s<-%s' % (field, w), loc, 'non-public helper called only from allowed writer(s) %s' % sorted(helper_of[w]))
+        elif w in allowed:
             run.ok(rule, inst, '%s<-%s' % (field, w), loc, 'allowed writer: ' + allowed[w], detail={'kinds': sorted({a.kind + (':' + a.method if a.method else '') for a in accs})})
         else:
             run.violation(rule, inst, '%s<-%s' % (field, w), loc,
                           '%s is written by %s (%s), which is outside the closed writer set {%s}' % (
                               field, w, ', '.join(sorted({a.kind + (':' + a.method if a.method else '') for a in accs})) or 'mem-initialiser', ', '.join(sorted(allowed))))
+    via_helper = set()
+    for h_, roots in helper_of.items():
+        via_helper |= roots
     for w in (required or []):
-        if w not in writers:
+        if w not in writers and w not in via_helper:
             run.broke('%s: tabled writer %s of %s no longer writes it (anchor vanished)' % (rule, w, field))
     return writers
 
